@@ -299,3 +299,81 @@ pub fn value_matches(scn: &Scenario, r: &Ref, got: &Value) -> Result<(), String>
 pub fn inner_arg(parent: u64, ord: u64) -> u64 {
     inner_fault_arg(parent, ord)
 }
+
+/// Independent cross-check of the reference model: the same chain built from boxed `std::iter` adaptors.
+pub fn std_chain_finals(scn: &Scenario) -> Vec<RTok> {
+    let order = source_order(scn.src, &scn.vals);
+    let src: Vec<RTok> = order
+        .iter()
+        .skip(scn.pre.min(order.len()))
+        .map(|&i| {
+            let x = RTok::leaf(src_id(i), scn.vals[i]);
+            if scn.src.clones() {
+                clone_fn(x)
+            } else {
+                x
+            }
+        })
+        .collect();
+    let mut it: Box<dyn Iterator<Item = RTok>> = Box::new(src.into_iter());
+    for (level, op) in scn.ops.iter().enumerate() {
+        let stage = (level + 1) as u16;
+        let op = *op;
+        it = match op {
+            Op::Map { .. } => Box::new(it.map(move |x| map_fn(stage, &op, x))),
+            Op::Filter { .. } => Box::new(it.filter(move |x| filter_fn(&op, x))),
+            Op::FlatMap { .. } => Box::new(it.flat_map(move |x| {
+                let n = flatmap_count(&op, &x);
+                (0..n).map(move |j| flatmap_child(stage, &x, j)).collect::<Vec<_>>()
+            })),
+            Op::FilterMap { .. } => Box::new(it.filter_map(move |x| filtermap_fn(stage, &op, x))),
+        };
+    }
+    it.collect()
+}
+
+/// Runs the cross-check over generated scenarios of every family; returns the number of scenarios compared.
+pub fn selftest(n: u64) -> Result<u64, String> {
+    let mut checked = 0;
+    for prop in ["C01", "C02", "C03", "C04", "C05", "C06", "C07", "C13"] {
+        for seed in 0..n {
+            let scn = crate::gen::generate(prop, seed * 7919 + 13);
+            if scn.src == Src::IterEndless || scn.vals.len() > 400 {
+                continue;
+            }
+            let rf = reference(&scn);
+            let a: Vec<RTok> = rf.finals.iter().map(|x| x.1).collect();
+            let b = std_chain_finals(&scn);
+            if a != b {
+                return Err(format!("reference model and std chain differ for {}", scn.encode()));
+            }
+            // terminal values against std
+            match (&scn.term, &rf.value) {
+                (Term::Count, crate::pipeline::Value::Count(c)) if *c != b.len() => return Err(format!("count: {}", scn.encode())),
+                (Term::Find(p), crate::pipeline::Value::Opt(v)) if *v != b.iter().find(|x| p.eval(x)).copied() => {
+                    return Err(format!("find: {}", scn.encode()))
+                }
+                (Term::Any(p), crate::pipeline::Value::Bool(v)) if *v != b.iter().any(|x| p.eval(x)) => return Err(format!("any: {}", scn.encode())),
+                (Term::All(p), crate::pipeline::Value::Bool(v)) if *v != b.iter().all(|x| p.eval(x)) => return Err(format!("all: {}", scn.encode())),
+                (Term::First, crate::pipeline::Value::Opt(v)) if *v != b.first().copied() => return Err(format!("first: {}", scn.encode())),
+                (Term::Reduce(op), crate::pipeline::Value::Opt(v)) => {
+                    let w = b.iter().copied().reduce(|x, y| red_fn(*op, x, y));
+                    if v.map(|x| (x.val, x.w_cnt, x.w_sum, x.w_xor)) != w.map(|x| (x.val, x.w_cnt, x.w_sum, x.w_xor)) {
+                        return Err(format!("reduce: {}", scn.encode()));
+                    }
+                }
+                _ => {}
+            }
+            checked += 1;
+        }
+    }
+    Ok(checked)
+}
+
+#[cfg(test)]
+mod tests {
+    #[test]
+    fn reference_agrees_with_std_chain() {
+        assert!(super::selftest(300).unwrap() > 1000);
+    }
+}
